@@ -310,6 +310,18 @@ class Run:
                 self.assumptions.append(t)
 
     def finish(self, level="model_checking", explanation=""):
+        rep = getattr(self, "replay_of", None)
+        if rep:
+            hit = [o for o in self.obs if o.id == rep.get("obligation") and o.status == "violated"]
+            same = [o for o in hit if o.role == rep.get("role")]
+            if hit:
+                o = (same or hit)[0]
+                log(f"VIOLATION property={self.prop} replay={os.environ.get('VERIF_REPLAY_PATH', rep.get('_path', '(replay file)'))}")
+                log(f"  reproduced: obligation {o.id} role={o.role}: {o.detail}")
+                return EXIT_VIOLATION
+            st = next((o.status for o in self.obs if o.id == rep.get("obligation")), "not run")
+            log(f"REPLAY: obligation {rep.get('obligation')} is {st} on the current tree: not reproduced")
+            return EXIT_OK if st == "discharged" else EXIT_INCONCLUSIVE
         known = load_known()
         kn = [k for k in known.get("known", []) if k["property"] == self.prop]
         viol, knownhits, inconc = [], [], []
